@@ -67,7 +67,18 @@ class WalkIter(I.Iter):
                 self.stack.append([[('err', None)], depth + 1])
             else:
                 self.stack.append([self._listing(ent), depth + 1])
-        return Ok(Struct('DirEntry', {'path': ent[0], 'kind': Str(ent[1]), 'depth': B.UIntC(depth)}))
+        return Ok(Struct('DirEntry', {'path': self._spell(ent[0]), 'kind': Str(ent[1]), 'depth': B.UIntC(depth)}))
+
+    def _spell(self, path):
+        """walkdir yields paths spelled from the root as it was given (relative roots stay relative)"""
+        if FS.is_absolute(self.root) and FS.is_absolute(path):
+            return path
+        rc = FS.components(self.w.abs(self.root))
+        pc = FS.components(self.w.abs(path))
+        out = FS.strip_trailing(self.root)
+        for c in pc[len(rc):]:
+            out = FS.join(out, c)
+        return out
 
     def _next_raw(self):
         mind = self.wd.f.get('min_depth', 0)
